@@ -1,12 +1,13 @@
 // C20 — Flush writes every log entry logged before it, once and in order.
 //
 // Trials against the real rogger package with recording LogWriters. Schedule classes:
-//   free:   1..8 goroutines log concurrently, then FlushLogger
-//   forced: through the committed `verif` yield hook the background flusher is parked
-//           exactly between its non-blocking and its blocking poll; the last entry is
-//           logged, the flush is requested, then the flusher is released - the interleaving
-//           in which a flusher that does not drain on flush loses the entry
-//   overflow: one goroutine logs more entries than the queue holds while the writer stalls
+//
+//	free:   1..8 goroutines log concurrently, then FlushLogger
+//	forced: through the committed `verif` yield hook the background flusher is parked
+//	        exactly between its non-blocking and its blocking poll; the last entry is
+//	        logged, the flush is requested, then the flusher is released - the interleaving
+//	        in which a flusher that does not drain on flush loses the entry
+//	overflow: one goroutine logs more entries than the queue holds while the writer stalls
 package c20
 
 import (
@@ -26,7 +27,7 @@ import (
 )
 
 var st = stat.New("C20",
-	"Trial = {schedule class free | forced | overflow; 1..8 logging goroutines each logging 1..50 numbered entries through two loggers with separate recording writers; 0..1000 entries of pre-occupancy; forced: the flusher is parked at the yield hook between its two polls, the last entry is logged, the flush is requested (observed through an accessor), the flusher is released; overflow: 10001..10300 entries from one goroutine while the writer stalls for 250 ms}. Oracle over the recording writers after FlushLogger returned: every entry whose logging call returned before the flush request is present exactly once on the writer of its logger (and never on the other), entries of one goroutine appear in logging order, every Write call carries exactly one formatted entry (one line, one token), FlushLogger returns within the 1 s flush timeout + slack. Non-trivial = forced trial, overflow trial, or >= 3 goroutines logging. Distinct = distinct trial JSON.",
+	"Trial = {schedule class free | forced | inflight | overflow; 1..8 logging goroutines each logging 1..50 numbered entries through two loggers with separate recording writers; 0..1000 entries of pre-occupancy; forced: the flusher is parked at the yield hook between its two polls, the last entry is logged, the flush is requested (observed through an accessor), the flusher is released; inflight: a writer taking 40 ms per Write, flush requested while the last entry is off the queue but not yet written; overflow: 10001..10300 entries from one goroutine while the writer stalls for 250 ms}. Oracle over the recording writers after FlushLogger returned: every entry whose logging call returned before the flush request is present exactly once on the writer of its logger (and never on the other), entries of one goroutine appear in logging order, every Write call carries exactly one formatted entry (one line, one token), FlushLogger returns only after the flusher acknowledged (or the timeout passed) and within the 1 s flush timeout + slack. Non-trivial = forced trial, overflow trial, or >= 3 goroutines logging. Distinct = distinct trial JSON.",
 	"the losing interleaving is a window of a few nanoseconds without the hook; the hook (build tag verif, committed to the repository) makes it deterministic, the select between the two ready cases remains random (p = 1/2 per trial)",
 	"logger state is reset between trials through an overlay accessor that restarts the background flusher")
 
@@ -43,9 +44,16 @@ type recWriter struct {
 	writes [][]byte
 	stall  time.Duration
 	first  bool
+	slow   time.Duration // every Write takes this long
+	inside int32         // number of Write calls currently in progress
 }
 
 func (w *recWriter) Write(v []byte) {
+	if w.slow > 0 {
+		atomic.AddInt32(&w.inside, 1)
+		time.Sleep(w.slow)
+		defer atomic.AddInt32(&w.inside, -1)
+	}
 	w.mu.Lock()
 	if w.stall > 0 && !w.first {
 		w.first = true
@@ -80,12 +88,19 @@ func installHook() {
 }
 
 func draw(rt *rapid.T) Trial {
-	t := Trial{Class: rapid.SampledFrom([]string{"free", "free", "free", "free", "free", "free", "free", "free", "free", "forced", "forced", "forced", "forced", "forced", "forced", "forced", "forced", "forced", "forced", "forced", "forced", "forced", "forced", "forced", "overflow"}).Draw(rt, "class")}
+	t := Trial{Class: rapid.SampledFrom([]string{"free", "free", "free", "free", "free", "free", "free", "free", "free", "forced", "forced", "forced", "forced", "forced", "forced", "forced", "forced", "forced", "forced", "forced", "forced", "forced", "forced", "forced", "inflight", "inflight", "inflight", "overflow"}).Draw(rt, "class")}
 	t.Goroutines = rapid.IntRange(1, 8).Draw(rt, "goroutines")
 	if t.Class == "overflow" {
 		t.Goroutines = 1
 		t.Extra = rapid.IntRange(1, 300).Draw(rt, "extra")
 		t.Entries = []int{10000 + t.Extra}
+		return t
+	}
+	if t.Class == "inflight" {
+		// one goroutine, a writer that takes 40 ms per Write: the flush is requested while
+		// the last entry is off the queue but not yet written
+		t.Goroutines = 1
+		t.Entries = []int{rapid.IntRange(1, 3).Draw(rt, "entries")}
 		return t
 	}
 	for i := 0; i < t.Goroutines; i++ {
@@ -103,16 +118,16 @@ func run(t Trial) *stat.Failure {
 	if t.Class == "overflow" {
 		w1.stall = 250 * time.Millisecond
 	}
+	if t.Class == "inflight" {
+		w1.slow = 40 * time.Millisecond
+	}
 	l1 := rogger.GetLogger(fmt.Sprintf("verifA%d", no))
 	l2 := rogger.GetLogger(fmt.Sprintf("verifB%d", no))
 	l1.SetWriter(w1)
 	l2.SetWriter(w2)
 	defer func() {
 		// the flusher exits after a flush; restart it for the next trial
-		select {
-		case <-rogger.VerifFlusherDone():
-		case <-time.After(3 * time.Second):
-		}
+		rogger.VerifStopFlusher()
 		rogger.VerifReset()
 	}()
 	{
@@ -171,6 +186,13 @@ func run(t Trial) *stat.Failure {
 		}
 		l1.Infof("%s", token(no, 0, t.Entries[0]-1)) // returns: the entry is queued
 	}
+	if t.Class == "inflight" {
+		// wait until the queue is empty while the writer is still busy with the last entry
+		dl := time.Now().Add(3 * time.Second)
+		for time.Now().Before(dl) && !(rogger.VerifQueueLen() == 0 && atomic.LoadInt32(&w1.inside) > 0) {
+			time.Sleep(200 * time.Microsecond)
+		}
+	}
 	t0 := time.Now()
 	flushed := make(chan struct{})
 	go func() { rogger.FlushLogger(); close(flushed) }()
@@ -185,6 +207,21 @@ func run(t Trial) *stat.Failure {
 		return stat.Failf("flush-hangs", "FlushLogger did not return within 10 s (flush timeout is 1 s)")
 	}
 	took := time.Since(t0)
+	// FlushLogger may only return once the flusher has acknowledged the flush (or the
+	// flush timeout has passed)
+	select {
+	case <-rogger.VerifFlusherDone():
+	default:
+		if took < 900*time.Millisecond {
+			f := stat.Failf("flush-returned-early", "class %s: FlushLogger returned after %v although the background flusher had not acknowledged the flush and the 1 s flush timeout had not passed", t.Class, took.Round(time.Millisecond))
+			rogger.FlushLogger()
+			select {
+			case <-rogger.VerifFlusherDone():
+			case <-time.After(2 * time.Second):
+			}
+			return f
+		}
+	}
 	// ---- oracle
 	check := func(w *recWriter, mine func(g int) bool, name string) *stat.Failure {
 		seen := map[string]int{}
